@@ -1563,6 +1563,14 @@ func (w *Writer) writeImageAtomic(imgAtomic ir.StmtImageAtomic) error {
 		return err
 	}
 
+	// Array index
+	if imgAtomic.ArrayIndex != nil {
+		w.write(", ")
+		if err := w.writeExpression(*imgAtomic.ArrayIndex); err != nil {
+			return err
+		}
+	}
+
 	w.write(", ")
 
 	// Value
